@@ -104,17 +104,19 @@ def run(ctx):
     extra = extra_values(rng, 24 if not ctx.thorough else 200)
     xmod = XMOD % _wire.tla_set([_wire.tla_seq(_wire.b8(v)) for v in extra])
 
-    # 1. exhaustive check of the specified codec (no emission): larger bound than what is replayed
-    mc_len = 4 if not ctx.thorough else 5
-    r = ctx.tlc("Wire_lenenc_x", "le_mc.cfg", coverage=True, timeout=1500, workers=4 if not ctx.thorough else "auto",
-                extra_files={"Wire_lenenc_x.tla": xmod,
-                             "le_mc.cfg": CFG % {"modes": '"alpha", "struct", "enc"', "maxlen": mc_len, "emit": "FALSE"}},
-                label="codec properties on all byte strings up to length %d + structured + 64-bit boundaries" % mc_len)
-    ctx.log("mc", r.stats(), "%.1fs" % r.wall)
-    if r.zero_actions:
-        ctx.notes.append("vacuous actions: %s" % r.zero_actions)
+    # 1. thorough: exhaustive check of the specified codec on a larger bound than what is replayed (no emission)
+    if ctx.thorough:
+        mc_len = 5
+        r = ctx.tlc("Wire_lenenc_x", "le_mc.cfg", coverage=True, timeout=1500, workers="auto",
+                    extra_files={"Wire_lenenc_x.tla": xmod,
+                                 "le_mc.cfg": CFG % {"modes": '"alpha", "struct", "enc"', "maxlen": mc_len, "emit": "FALSE"}},
+                    label="codec properties on all byte strings up to length %d + structured + 64-bit boundaries" % mc_len)
+        ctx.log("mc", r.stats(), "%.1fs" % r.wall)
+        if r.zero_actions:
+            ctx.notes.append("vacuous actions: %s" % r.zero_actions)
 
-    # 2. G: emit every state with the specification's results and replay on the real code
+    # 2. exhaustive check with emission: every state is checked against the codec properties AND printed with the
+    #    specification's results, then replayed on the real code (G)
     gen_len = 3 if not ctx.thorough else 4
     cases_path = ctx.path("le_cases.ndjson")
     counts = {"alpha": 0, "struct": 0, "enc": 0}
@@ -130,7 +132,7 @@ def run(ctx):
                 keep.setdefault("dec1", c)
             f.write(json.dumps(c, separators=(",", ":")))
             f.write("\n")
-        r = ctx.tlc("Wire_lenenc_x", "le_gen.cfg", workers=1, timeout=1500, case_sink=sink, keep_cases=False,
+        r = ctx.tlc("Wire_lenenc_x", "le_gen.cfg", workers=1, timeout=1500, case_sink=sink, keep_cases=False, coverage=True,
                     extra_files={"Wire_lenenc_x.tla": xmod,
                                  "le_gen.cfg": CFG % {"modes": '"alpha", "struct", "enc"', "maxlen": gen_len, "emit": "TRUE"}},
                     label="emit cases: byte strings up to length %d, structured buffers, 64-bit values" % gen_len)
@@ -139,10 +141,17 @@ def run(ctx):
             f.write(json.dumps(c, separators=(",", ":")))
             f.write("\n")
     total = sum(counts.values()) + len(known)
+    if r.zero_actions:
+        ctx.notes.append("vacuous actions: %s" % r.zero_actions)
     ctx.log("emitted", counts, "+ %d cases stored with findings" % len(known), "%.1fs" % r.wall)
     if not counts["alpha"] or not counts["struct"] or not counts["enc"]:
         raise vlib.Inconclusive("TLC emitted no cases for some kind: %s" % counts)
-    res, summ = _wire.replay(ctx, "mysql", HARNESS, RUN, cases_path, want_cases=total)
+    # binding self-test (rides on the same harness run): corrupted expectations must be reported
+    if "dec1" not in keep:
+        raise vlib.Inconclusive("no one-byte decoder case for the self-test")
+    res, summ = _wire.replay(ctx, "mysql", HARNESS, RUN, cases_path, want_cases=total,
+                             selftests=[("corrupted_decoder_expectation_detected", keep["dec1"], corrupt_dec),
+                                        ("corrupted_encoder_expectation_detected", keep["enc"], corrupt_enc)])
     ctx.log("replayed", summ["cases"], "cases;", summ["calls"], "calls of the real codec;", summ["panics"], "panics;",
             "offsets", summ["offsets"])
     ctx.cov["traces_validated_against_impl"] += summ["cases"]
@@ -159,9 +168,3 @@ def run(ctx):
     if "struct" in keep:
         c = keep["struct"]
         ctx.sample({"kind": "struct", "buf": c["buf"], "first_offset": c["at"][0]})
-
-    # 3. binding self-test: a corrupted expectation must be reported
-    if "dec1" not in keep:
-        raise vlib.Inconclusive("no one-byte decoder case for the self-test")
-    _wire.selftest(ctx, "mysql", HARNESS, RUN, keep["dec1"], corrupt_dec, name="corrupted_decoder_expectation_detected")
-    _wire.selftest(ctx, "mysql", HARNESS, RUN, keep["enc"], corrupt_enc, name="corrupted_encoder_expectation_detected")
